@@ -186,7 +186,8 @@ fn payload_pool(rng: &mut Rng) -> Vec<Tree> {
         Tree::Arr(vec![Tree::Arr(vec![Tree::Arr(vec![Tree::Dbl(Dbl::of(0.1))])])]),
     ];
     for _ in 0..8 {
-        v.push(crate::ops::c13_random_json(rng, 3));
+        // (payloads name no member twice: what an `Any` makes of a repeated name is C13's business)
+        v.push(crate::ops::c13::last_wins(&crate::ops::c13_random_json(rng, 3)));
     }
     v
 }
@@ -302,6 +303,61 @@ pub fn cases(seed: u64, tier: Tier) -> Cases {
         }
         for d in [Tree::Null, Tree::Int(0), Tree::Bool(true), Tree::Arr(vec![]), Tree::Obj(vec![]), Tree::Arr(vec![Tree::Str("RED".into())]), Tree::Obj(vec![("RED".into(), Tree::Int(1))]), Tree::Obj(vec![("PURPLE".into(), Tree::Null)]), Tree::Obj(vec![("RED".into(), Tree::Null), ("GREEN".into(), Tree::Null)]), Tree::Dbl(Dbl::of(1.5))] {
             enum_case(&mut cs, &g, ty, &values, &d);
+        }
+    }
+    // the same enum as the value of an object's field (`Opts.ocolor: optional<Color>`, `Tagged.color: Color`,
+    // `Tagged.colors: list<Color>`): what holds at the top of a document holds below a member, for both readers and
+    // both configurations
+    for n in ["RED", "GREEN", "BLUE_2", "BOGUS", "BOGUS_1", "red", "RED "] {
+        for (ty, doc) in [("Opts", Tree::Obj(vec![("ocolor".to_string(), Tree::Str(n.to_string()))])), ("Tagged", Tree::Obj(vec![("color".to_string(), Tree::Str(n.to_string()))])), ("Tagged", Tree::Obj(vec![("color".to_string(), Tree::Str("RED".to_string())), ("colors".to_string(), Tree::Arr(vec![Tree::Str("GREEN".to_string()), Tree::Str(n.to_string())]))]))] {
+            let bytes = serde_json::to_vec(&doc).unwrap();
+            let mut outs = vec![];
+            for cfg in ["plain", "exhaustive"] {
+                for server in [false, true] {
+                    outs.push(match g.de_ser(ty, cfg, server, &bytes) {
+                        Ok(Ok(d)) => format!("ok {}", d),
+                        Ok(Err(_)) => "err".to_string(),
+                        Err(_) => "panic".to_string(),
+                    });
+                }
+            }
+            cs.push(&format!("enum-below-member:{}", ty), "noop".into(), "noop".into(), true, format!("{} from {}", ty, String::from_utf8_lossy(&bytes)));
+            let listed = ["RED", "GREEN", "BLUE_2"].contains(&n);
+            let hexn = hex(n.as_bytes());
+            if outs.iter().any(|o| o == "panic") {
+                cs.fail_last("enum:panic", format!("{:?}", outs));
+            } else if listed && !(outs.iter().all(|o| o == &outs[0]) && outs[0].starts_with("ok") && outs[0].contains(&hexn)) {
+                cs.fail_last("enum:listed-not-itself", format!("the listed value {:?} below a member of {}: plain client / plain server / exhaustive client / exhaustive server give {:?}", n, ty, outs));
+            } else if !listed && valid_variant(n) && !(outs[0] == outs[1] && outs[0].starts_with("ok") && outs[0].contains(&hexn)) {
+                cs.fail_last("enum:unknown-lost", format!("the well-formed unlisted value {:?} below a member of {} gives {:?} in the default configuration", n, ty, &outs[..2]));
+            } else if !listed && (outs[2] != "err" || outs[3] != "err") {
+                cs.fail_last("enum:exhaustive-accepts-unknown", format!("the exhaustive configuration accepts the unlisted {:?} below a member of {}: {:?}", n, ty, &outs[2..]));
+            } else if !listed && !valid_variant(n) && (outs[0] != "err" || outs[1] != "err") {
+                cs.fail_last("enum:malformed-accepted", format!("the malformed name {:?} below a member of {} gives {:?}", n, ty, &outs[..2]));
+            }
+        }
+    }
+    // an unknown variant whose payload holds doubles that need all their digits: the digits written back are the
+    // digits read (compared as text: no second parser in between)
+    {
+        let mut r2 = Rng::new(seed ^ 0xD0B1);
+        for i in 0..40 {
+            let x = if i % 2 == 0 { 100.0 + (r2.next() >> 11) as f64 / (1u64 << 53) as f64 * 100.0 } else { f64::from_bits(r2.next()) };
+            if !x.is_finite() {
+                continue;
+            }
+            let lit = serde_json::to_string(&x).unwrap();
+            let doc = format!("{{\"type\":\"gizmo\",\"gizmo\":{{\"k\":[{},{{\"deep\":{}}}]}}}}", lit, lit);
+            for server in [false, true] {
+                let f = g.entries["Shape"].de_ser;
+                let d2 = doc.clone();
+                let out = guarded(move || f("plain", server, d2.as_bytes()));
+                cs.push("union:unknown-double-payload", "noop".into(), "noop".into(), true, format!("Shape ({}) from {}", if server { "server" } else { "client" }, doc));
+                match out {
+                    Ok(Ok(s)) if s.matches(lit.as_str()).count() == 2 => {}
+                    other => cs.fail_last("union:unknown-payload-altered", format!("the payload of the unknown variant in {} comes back as {:?}", doc, other)),
+                }
+            }
         }
     }
 
